@@ -163,7 +163,7 @@ def known_mechanism(entry, x, exc, other=None):
         # dask.optimize materializes the *raw* tree node by node (dask's _ExprSequence.__dask_graph__ calls
         # _layer() on every unlowered node): layers of nodes that lowering would have rewritten are emitted as is
         return "dask.optimize:raw_tree_walked_without_lowering"
-    if entry == "dask.persist" and exc is not None and ("_find_layer_key" in short_tb(exc, 12) or "from_graph found a block of shape" in str(exc)) and optimized_layout_differs(x):
+    if entry == "dask.persist" and exc is not None and ("_find_layer_key" in short_tb(exc, 12) or "from_graph found a block of shape" in str(exc)) and (optimized_layout_differs(x) or (other is not None and optimized_layout_differs(other))):
         # documented: dask.persist optimizes outside the pinned path; a rewrite that changes the root's block grid cannot be rebuilt
         return "dask.persist:optimized_root_layout_differs_from_advertised"
     return None
